@@ -8,6 +8,7 @@ import (
 	"os"
 	"strconv"
 	"strings"
+	"sync/atomic"
 	"time"
 
 	"github.com/libp2p/go-libp2p/core/peer"
@@ -290,6 +291,10 @@ func runC13(tier string, r *rng) {
 	}
 	if line := os.Getenv("VERIF_REPLAY_CASE"); line != "" {
 		kv := kvOf(line)
+		if kv["kind"] == "twin" {
+			e.c13Twin(kv["op"])
+			return
+		}
 		if kv["kind"] == "allblocked" {
 			n, _ := strconv.Atoi(kv["n"])
 			e.c13AllBlocked(kv["op"], n)
@@ -297,6 +302,10 @@ func runC13(tier string, r *rng) {
 		}
 		e.c13Case(kv["op"], strings.Split(kv["answers"], ","), atoiList(kv["order"]))
 		return
+	}
+	// a header whose hash was seen valid before comes back in a form that fails Validate
+	for _, op := range []string{"get", "byheight"} {
+		e.c13Twin(op)
 	}
 	// every trusted peer has been blocked by the client itself (they served a bad range earlier)
 	for _, op := range []string{"get", "byheight"} {
@@ -386,4 +395,53 @@ func (e *p2pEnv) c13AllBlocked(op string, n int) {
 	}
 	_ = ex.Stop(context.Background())
 	emit("C13 op=%s kind=allblocked n=%d range=%s answers=valid order=0 => hdr=%s err=%s", op, n, errs(rerr), r, ec)
+}
+
+// c13Twin: ONE client, two calls. The trusted peer first answers with the valid header; the second time it answers with a
+// twin that has the SAME hash but fails Validate (the part that differs is not covered by the hash, as with the commit of
+// real header types). The second call must fail: only headers that passed Validate are returned.
+func (e *p2pEnv) c13Twin(op string) {
+	want := e.chain[59]
+	twin := &vhdr.Header{Chain: want.Chain, H: want.H, T: want.T, Prev: want.Prev, Salt: want.Salt, VK: want.VK, BadSig: true}
+	var nth atomic.Int32
+	e.peers[0].Reset(false, func(int, *p2p_pb.HeaderRequest) peers.Reply {
+		if nth.Add(1) == 1 {
+			return peers.Reply{Kind: "ok", Headers: []*vhdr.Header{want}}
+		}
+		return peers.Reply{Kind: "ok", Headers: []*vhdr.Header{twin}}
+	})
+	ex := e.client([]peer.ID{e.hosts[1].ID()}, 0, 250*time.Millisecond)
+	call := func() string {
+		ctx, cancel := context.WithTimeout(context.Background(), 2*time.Second)
+		defer cancel()
+		var h *vhdr.Header
+		var err error
+		func() {
+			defer func() {
+				if r := recover(); r != nil {
+					err = fmt.Errorf("panic: %v", r)
+				}
+			}()
+			if op == "get" {
+				h, err = ex.Get(ctx, want.Hash())
+			} else {
+				h, err = ex.GetByHeight(ctx, 60)
+			}
+		}()
+		switch {
+		case err != nil:
+			return "err"
+		case h == nil:
+			return "zero"
+		case h.Validate() != nil:
+			return "invalid"
+		default:
+			return "valid"
+		}
+	}
+	first := call()
+	second := call()
+	e.peers[0].Reset(false, nil)
+	_ = ex.Stop(context.Background())
+	emit("C13 kind=twin op=%s samehash=%d => first=%s second=%s", op, b2i(string(twin.Hash()) == string(want.Hash())), first, second)
 }
